@@ -67,17 +67,41 @@ def handler_rules(rep, u, vals):
     ok = len(cbs) == 1 and cbs[0][0] not in fn.reach_from(fn.blocks[cbs[0][0]].rsucc())
     (rep.proved if ok else rep.violated)("R-PATH", fn, "one-callback", "the user callback has one call site that is not on a cycle "
                                          "(at most one callback per handler invocation)", "%d site(s)" % len(cbs))
+    # names derived from roles, not spelling:
+    #  verdict variable = the one that receives the user callback's result;
+    #  per-invocation byte counter = the local added to tptask->tot_transfered_size
+    verdict = None
+    for pos, root, x, ps in fn.nodes():
+        if x.get("k") == "bin" and x["op"] == "=" and core.strip_casts(x["x"]).get("k") == "ref":
+            for y, _ in walk(x["y"]):
+                if y.get("k") == "call" and "callee" in y and key(y["callee"]).endswith("->cb_func"):
+                    verdict = core.strip_casts(x["x"])["n"]
+    moved = None
+    for pos, root, x, ps in fn.nodes():
+        if x.get("k") == "bin" and x["op"] == "+=" and key(x["x"]).endswith("tot_transfered_size") and \
+                core.strip_casts(x["y"]).get("k") == "ref":
+            moved = core.strip_casts(x["y"])["n"]
+    if verdict is None or moved is None:
+        raise driver.AnalysisBroken("tp_task_handler: callback verdict variable / byte counter not found")
     # per-step cursor agreement inside the two transfer loops
     loops = fn.loops()
     nsteps = 0
     for h, body in loops.items():
         io = None
+        iov = None      # the variable that receives the I/O call's result (whatever it is called)
         for b in body:
             for e in fn.blocks[b].elems:
-                for x, _ in walk(e):
+                for x, ps in walk(e):
                     if x.get("k") == "call" and x.get("fn") in ("pread", "recv", "pwrite", "send", "recvfrom"):
                         io = x["fn"]
+                        for p_ in reversed(ps):
+                            if p_.get("k") == "bin" and p_["op"] == "=" and core.strip_casts(p_["x"]).get("k") == "ref":
+                                iov = core.strip_casts(p_["x"])["n"]
+                                break
         if io is None:
+            continue
+        if iov is None:
+            rep.undecided("R-SIB", fn, "cursor-step@%s" % h, "the I/O result is stored in a variable", "no assignment of the %s result found" % io)
             continue
         nsteps += 1
         amounts = {}
@@ -87,36 +111,36 @@ def handler_rules(rep, u, vals):
                     if x.get("k") == "bin" and x["op"] in ("+=", "-="):
                         amounts.setdefault(key(core.strip_casts(x["y"])), []).append((key(x["x"]), x["op"]))
         kind = "read" if io in ("pread", "recv", "recvfrom") else "write"
-        want = {("transfered_size", "+="), ("tptask->offset", "+="), ("tptask->buf->offset", "+="), ("tptask->buf->transfer_size", "-=")}
+        want = {(moved, "+="), ("tptask->offset", "+="), ("tptask->buf->offset", "+="), ("tptask->buf->transfer_size", "-=")}
         if kind == "read":
             want.add(("tptask->buf->used", "+="))
         got = set()
         for amt, lst in amounts.items():
-            if amt == "ios":
+            if amt == iov:
                 got = set(lst)
-        other = {amt: lst for amt, lst in amounts.items() if amt != "ios" and any(t in [w[0] for w in want] for t, _ in lst)}
+        other = {amt: lst for amt, lst in amounts.items() if amt != iov and any(t in [w[0] for w in want] for t, _ in lst)}
         desc = "%s loop: transferred count, file offset and all buffer cursors advance by the same amount (the I/O result)" % kind
         if got == want and not other:
-            rep.proved("R-SIB", fn, "cursor-step:" + kind, desc, "%d updates by 'ios'" % len(got))
+            rep.proved("R-SIB", fn, "cursor-step:" + kind, desc, "%d updates by '%s'" % (len(got), iov))
         else:
-            rep.violated("R-SIB", fn, "cursor-step:" + kind, desc, "updates by ios: %s; by other amounts: %s; expected %s" % (
-                sorted(got), other, sorted(want)))
+            rep.violated("R-SIB", fn, "cursor-step:" + kind, desc, "updates by %s: %s; by other amounts: %s; expected %s" % (
+                iov, sorted(got), other, sorted(want)))
     rep.floor("transfer loops", nsteps, 2)
     # partial totals: every assignment cb_ret = CONTINUE is preceded (same block) by tot += transfered
-    conts = [(pos, x) for pos, root, x, ps in fn.nodes() if x.get("k") == "bin" and x["op"] == "=" and key(x["x"]) == "cb_ret"
+    conts = [(pos, x) for pos, root, x, ps in fn.nodes() if x.get("k") == "bin" and x["op"] == "=" and key(x["x"]) == verdict
              and const_val(x["y"]) == CONT]
     okc = bool(conts)
     for pos, x in conts:
         blk = fn.blocks[pos[0]]
         saved = any(e.get("k") == "bin" and e["op"] == "+=" and key(e["x"]).endswith("tot_transfered_size") and
-                    key(core.strip_casts(e["y"])) == "transfered_size" for e in blk.elems[:pos[1]])
+                    key(core.strip_casts(e["y"])) == moved for e in blk.elems[:pos[1]])
         okc = okc and saved
     (rep.proved if okc else rep.violated)("R-PATH", fn, "partial-total-saved",
                                           "every exit that re-arms without calling back saves the bytes moved so far", "%d re-arm exits" % len(conts))
     # before the callback: transfered += tot ; tot = 0
     if len(cbs) == 1:
         cb = cbs[0]
-        fold = [pos for pos, root, x, ps in fn.nodes() if x.get("k") == "bin" and x["op"] == "+=" and key(x["x"]) == "transfered_size"
+        fold = [pos for pos, root, x, ps in fn.nodes() if x.get("k") == "bin" and x["op"] == "+=" and key(x["x"]) == moved
                 and key(core.strip_casts(x["y"])).endswith("tot_transfered_size")]
         clr = [pos for pos, root, x, ps in fn.nodes() if x.get("k") == "bin" and x["op"] == "=" and key(x["x"]).endswith("tot_transfered_size")
                and const_val(x["y"]) == 0]
